@@ -211,10 +211,29 @@ func (s *Service) Message(ctx context.Context, duty *synccommitteemessenger.Duty
 		return msgs, nil
 	}
 
-	sigs, err := s.contributions(ctx, accounts, s.chainTimeService.SlotToEpoch(duty.Slot()), *beaconBlockRoot)
+	// Only the active accounts are handed to the signer, which cannot sign for a nil account.
+	activeAccounts := make([]e2wtypes.Account, 0, countActive)
+	for _, account := range accounts {
+		if account != nil {
+			activeAccounts = append(activeAccounts, account)
+		}
+	}
+	activeSigs, err := s.contributions(ctx, activeAccounts, s.chainTimeService.SlotToEpoch(duty.Slot()), *beaconBlockRoot)
 	if err != nil {
 		s.log.Error().Err(err).Msg("Failed to sign sync committee messages")
 		return nil, errors.Wrap(err, "failed to sign sync committee messages")
+	}
+	if len(activeSigs) != len(activeAccounts) {
+		return nil, errors.New("failed to sign sync committee messages; incorrect number of signatures")
+	}
+	// Map the signatures back to the position of their account.
+	sigs := make([]phase0.BLSSignature, len(accounts))
+	nextSig := 0
+	for i := range accounts {
+		if accounts[i] != nil {
+			sigs[i] = activeSigs[nextSig]
+			nextSig++
+		}
 	}
 
 	for i, account := range accounts {
